@@ -14,6 +14,17 @@ use std::time::Instant;
 pub struct Case {
     pub tape: Vec<u16>,
     pub cfg: BConfig,
+    /// the tape is read by `gen::build_rec` (recursive type shapes) instead of `gen::build_ast`
+    #[serde(default)]
+    pub rec: bool,
+}
+
+pub fn spec_of(c: &Case) -> crate::spec::GrammarSpec {
+    if c.rec {
+        gen::build_rec(&c.tape)
+    } else {
+        gen::build_ast(&c.tape)
+    }
 }
 
 /// Greedy pairwise covering array over the six configuration parameters (deterministic).
@@ -126,7 +137,7 @@ fn refine(d: &crate::engine_b::Diag, spec: &crate::spec::GrammarSpec, cfg: &BCon
 fn judge(m: &str, diags: &[crate::engine_b::Diag], case: &Case, text: &str) -> BatchFailure {
     let d = &diags[0];
     let file = Path::new(&d.file).file_name().map(|f| f.to_string_lossy().to_string()).unwrap_or_default();
-    let spec = gen::build_ast(&case.tape);
+    let spec = spec_of(case);
     let sig = format!(
         "{}|{}|{}{}",
         if d.code.is_empty() { "error" } else { &d.code },
@@ -192,7 +203,16 @@ pub fn run(tier: Tier, seed: u64, replay: Option<&Path>) -> RunResult {
                 let tape = gen::g_ast().new_tree(&mut runner).unwrap().current();
                 for k in 0..3 {
                     let cfg = cov[(g * 3 + k + b) % cov.len()];
-                    v.push(Case { tape: tape.clone(), cfg });
+                    v.push(Case { tape: tape.clone(), cfg, rec: false });
+                }
+            }
+            // recursive type shapes (vector / optional / sugar edges that point back)
+            for g in 0..per_batch / 2 {
+                let tape = gen::g_rec().new_tree(&mut runner).unwrap().current();
+                for k in 0..2 {
+                    let mut cfg = cov[(g * 2 + k + b) % cov.len()];
+                    cfg.builder = 0; // the types live in the actions file of the default builder
+                    v.push(Case { tape: tape.clone(), cfg, rec: true });
                 }
             }
             cases.push(v);
@@ -205,7 +225,7 @@ pub fn run(tier: Tier, seed: u64, replay: Option<&Path>) -> RunResult {
         let mut mods: Vec<(String, &Case, String)> = vec![];
         for (i, c) in batch.iter().enumerate() {
             st.evaluations += 1;
-            let spec = gen::build_ast(&c.tape);
+            let spec = spec_of(c);
             let text = spec.render();
             let m = format!("m{i}");
             match sc.generate(&m, &text, &c.cfg) {
@@ -232,7 +252,7 @@ pub fn run(tier: Tier, seed: u64, replay: Option<&Path>) -> RunResult {
             match diags.get(m) {
                 Some(d) if !d.is_empty() => failures.push(judge(m, d, c, text)),
                 _ => {
-                    let spec = gen::build_ast(&c.tape);
+                    let spec = spec_of(c);
                     let cls = shape_classes(&spec);
                     for x in &cls {
                         st.class(&format!("compiled-shape-{x}"));
